@@ -2,7 +2,8 @@
    Only statements here; every proof is [exact <lemma of Proofs/C13*.v>].
    [run w evs] executes an event list (Protect / Seq / Unprotect / CleanStop, each optionally with a crash after its
    k-th file-system effect; Kill; Reload) on a world = live process state (or none) + disk state (Model/C13.v). *)
-From Verif Require Import Lib.Py Lib.Tactics Gen.oscore_replay Model.C12 Model.C13 Proofs.C12 Proofs.C13 Proofs.C13replay.
+From Verif Require Import Lib.Py Lib.Tactics Gen.oscore_replay Model.C12 Model.C13 Proofs.C12 Proofs.C13 Proofs.C13replay Proofs.C13Kernel.
+From Verif Require Gen.oscore_seqno Gen.oscore_rwchanged.
 From Coq Require Import Sorted.
 Open Scope Z_scope.
 
@@ -157,3 +158,42 @@ Example C13_noecho_nonvacuous :
     [Reload 10 10000 1000; Unprotect {| seqno := 5; authentic := true; echo := None |} None; Kill;
      Reload 10 10000 1003; Unprotect {| seqno := 5; authentic := true; echo := Some 7 |} (Some 2); CleanStop None].
 Proof. repeat constructor; cbn; intros; try lia; try discriminate. intros H1; injection H1 as <-. lia. Qed.
+
+(* ---- tie T (removable section: depends on Proofs/C13Kernel.v and the translator job oscore_seqno) ----
+   The model's sender sequence number kernels are the code of aiocoap/oscore.py as translated on this run:
+   [proj] projects the process record onto the four counters, [store_cb p d a] is self._store() instantiated with the
+   model's file-system steps on disk d under crash plan a (dying inside it = exception [Crashed]), [lift] maps
+   (state, disk, Val v / Exn e / Died) to Ok (proj state, v) / Raise e / Raise Crashed; the second conjunct says what the
+   model does besides: replay state untouched, disk = result of the one _store call if the code reaches it. *)
+Theorem C13_post_seqnoincrease_is_source : forall p d a,
+  oscore_seqno.post_seqnoincrease (store_cb p d a) (proj p) = lift (fun p' u => (proj p', u)) (C13.post_seqnoincrease p d a) /\
+  (let '(p', d', _) := C13.post_seqnoincrease p d a in
+   uc p' = uc p /\ wpers p' = wpers p /\ d' = if ssn p >? persisted p then fst (_store p' d a) else d).
+Proof. exact post_seqnoincrease_is_source. Qed.
+Print Assumptions C13_post_seqnoincrease_is_source.
+Theorem C13_new_sequence_number_is_source : forall p d a,
+  oscore_seqno.new_sequence_number (store_cb p d a) (proj p) = lift (fun p' v => (proj p', v)) (C13.new_sequence_number p d a) /\
+  (let '(p', d', _) := C13.new_sequence_number p d a in
+   uc p' = uc p /\ wpers p' = wpers p /\
+   d' = if ssn p >=? C13.MAX_SEQNO then d else if ssn p + 1 >? persisted p then fst (_store p' d a) else d).
+Proof. exact new_sequence_number_is_source. Qed.
+Print Assumptions C13_new_sequence_number_is_source.
+(* likewise _replay_window_changed (job oscore_rwchanged): the flag is cleared before the one write, so that write says "unknown" *)
+Theorem C13_replay_window_changed_is_source : forall p d a,
+  oscore_rwchanged.replay_window_changed (store_cbw p d a) (projw p) =
+    (let '(p', _, died) := C13._replay_window_changed p d a in if died then Raise Crashed else Ok (projw p', tt)) /\
+  (let '(p', d', _) := C13._replay_window_changed p d a in
+   p' = (if wpers p then set_wpers p false else p) /\ d' = if wpers p then fst (_store p' d a) else d).
+Proof. exact replay_window_changed_is_source. Qed.
+Print Assumptions C13_replay_window_changed_is_source.
+Theorem C13_max_seqno_is_source : oscore_seqno.MAX_SEQNO = 2 ^ 40 - 1.
+Proof. exact max_seqno_is_source. Qed.
+Print Assumptions C13_max_seqno_is_source.
+(* the translated code itself on the 11th call of a lifetime (chunk 10 used up): persists 10 -> 30, chunk 20 -> 40 *)
+Example C13_kernel_doctest :
+  oscore_seqno.new_sequence_number (fun s => Ok s)
+    {| oscore_seqno.fsc_sender_sequence_number := 10; oscore_seqno.fsc_sequence_number_persisted := 10;
+       oscore_seqno.fsc_sequence_number_chunksize := 20; oscore_seqno.fsc_sequence_number_chunksize_limit := 10000 |}
+  = Ok ({| oscore_seqno.fsc_sender_sequence_number := 11; oscore_seqno.fsc_sequence_number_persisted := 30;
+           oscore_seqno.fsc_sequence_number_chunksize := 40; oscore_seqno.fsc_sequence_number_chunksize_limit := 10000 |}, 10).
+Proof. vm_compute. reflexivity. Qed.
